@@ -66,12 +66,13 @@ PROPS["C06"] = dict(
 )
 
 PROPS["C08"] = dict(
-    units=[("kani", "ops"), ("verus", "vmcore"), ("kani", "headers")] + [("verus", "hdrser.%s" % k) for k in ("tcp", "udp", "eth", "vlan", "ipv4", "ipv6")],
+    units=[("kani", "ops"), ("verus", "vmcore"), ("verus", "vmindex"), ("verus", "dollar"), ("kani", "headers")] + [("verus", "hdrser.%s" % k) for k in ("tcp", "udp", "eth", "vlan", "ipv4", "ipv6")],
     explanation="Operator impls are panic-free on every scalar pair the VM lets through (Kani, full domain); the VM's stack/frame "
                 "helpers, call_func, call_builtin, push_closure, binary_op, bitwise_op are verified panic-free under the VM "
-                "representation invariant and preserve it (Verus); header parsers return Err on every truncated buffer.",
+                "representation invariant and preserve it (Verus); header parsers return Err on every truncated buffer. The index / map / $n helpers the arms call (vmindex unit, real bodies): exec_array_index indexes only inside the array, "
+                "exec_hash_index and build_map reject invalid keys with an error, exec_dollar_expr bounds the depth; get_inner (dollar unit) terminates for every depth and object.",
     not_covered=["VM::run's loop header/tail and the facts each arm assumes from the compiler (operands index existing constants/locals/free variables; operands were pushed)",
-                 "exec_index_expr / exec_prop_expr / exec_dollar_expr / build_map bodies (behind contracts)", "builtins (argument boundary checks)", "compile_* emission"],
+                 "builtins other than the 23 pure ones and the I/O ones under contract (C11, C22): time, rand, sleep, exit, input, strerror, get_errno are exercised by the bounded stand-in only", "compile_* emission"],
     assumptions=["operands the compiler encodes (constant index, free count, argument count) are within the VM state they index (precondition of the helpers)",
                  "num_locals of a compiled function is below 2^32"],
     trusted=COMMON_TRUST,
@@ -99,10 +100,10 @@ PROPS["C10"] = dict(
 )
 
 PROPS["C13"] = dict(
-    units=[("verus", "vmcore"), ("verus", "bytecode"), ("verus", "emitter"), ("verus", "propwire")],
+    units=[("verus", "vmcore"), ("verus", "bytecode"), ("verus", "emitter"), ("verus", "propwire"), ("verus", "vmindex"), ("verus", "dollar")],
     explanation="emit/add_instruction/replace_instruction/change_operand/patch_jump/remove_last_pop keep lines.len() == code.len() and never change the line of a surviving byte; make() records the given line for every byte of an instruction; every RTError built by the verified VM helpers "
                 "(push/pop/top, call_func, call_builtin, push_closure, binary_op, bitwise_op, exec_call, push_frame) carries the line argument.",
-    not_covered=["that the compiler passes the right token's line to emit", "errors raised inside exec_index_expr / exec_prop_* / exec_dollar_expr / build_map bodies (their contracts are assumed)",
+    not_covered=["that the compiler passes the right token's line to emit", "errors raised inside the 12 layer-getter arms of exec_prop_* (they return error OBJECTS, never runtime errors: pktcache) and inside builtins (call_builtin puts the line on them)",
                  "that `line` passed to the arms is instructions.lines[ip] (one line of VM::run's loop header)"],
     assumptions=[],
     trusted=COMMON_TRUST,
